@@ -86,7 +86,9 @@ SlRejected(sl, d) ==
     \/ sl[1] = 2 /\ (sl[2] > sl[3] \/ sl[2] < 0 \/ sl[2] >= d \/ sl[4] < 0
                       \/ (sl[4] = 0 /\ Min2(sl[3], d) - sl[2] > 1))
 (* inputs on which the statement is silent (empty range; end before 0 is "negative") *)
-SlOpen(sl, d) == sl[1] = 2 /\ sl[2] = sl[3]
+SlOpen(sl, d) == sl[1] = 2 /\ (\/ sl[2] = sl[3]
+                                \* zero step over more than one element only before the end is clamped
+                                \/ (sl[4] = 0 /\ sl[3] - sl[2] > 1 /\ Min2(sl[3], d) - sl[2] <= 1))
 SlMayDrop(sl, n) == sl[1] # 0 /\ n = 1
 
 PadSlices(sls, r) == [i \in 1..r |-> IF i <= Len(sls) THEN sls[i] ELSE SlNil]
